@@ -9,6 +9,7 @@ and under Match; x targets covering every truth assignment.  Deeper levels keep,
 combinations x sub-spec x targets.  Oracle: a boolean reference evaluator with call logs.
 """
 import itertools
+import json
 import operator
 
 import glom as G
@@ -321,6 +322,24 @@ def run_history(case):
             return r
         n += r.steps
         outcomes.add(r.outcome)
+    # ONE target object, changed in place between two evaluations of the same spec object: the second evaluation sees the new contents
+    def short(f):
+        try:
+            return ('pass', repr(f()))
+        except Exception as e:
+            return ('exc', [c.__name__ for c in type(e).__mro__ if c.__name__ in ('MatchError', 'PathAccessError', 'TypeError', 'GlomError')][:2])
+    for a, b in ((('k3', 'k0'), ('k0', 'k3'), ('kj', 'jk'), ('k3', 'nok')) if '"MT' in json.dumps(term) else ()):      # terms that read INSIDE the target
+        t = mk_target(a)
+        short(lambda: glom(t, full))
+        t.clear()
+        t.update(mk_target(b))
+        second = short(lambda: glom(t, full))
+        fresh_spec = build(term)
+        fresh = short(lambda: glom(mk_target(b), Match(fresh_spec) if mode == 'match' else fresh_spec))
+        if second != fresh:
+            return R({'expected': 'after the target object was changed in place to %r: %r' % (mk_target(b), fresh), 'observed': repr(second),
+                      'spec': repr(full), 'mode': mode, 'history': 'the same spec object had been evaluated on the same object holding %r' % (mk_target(a),)},
+                     'stale-target')
     return R(None, '%s:%d outcomes' % (order, len(outcomes)), nontrivial=len(outcomes) > 1, steps=n, tags={term[0], mode, order})
 
 
